@@ -19,6 +19,15 @@ TEMPLATE = '''<%!
             return ""
         return decorate
 
+    def dec2(fn):
+        # a decorator that changes the arguments on the way through
+        def decorate(context, x, level=1, **kw):
+            context.write("<")
+            fn(x.upper(), level=level + 1, **kw)
+            context.write(">")
+            return ""
+        return decorate
+
     @runtime.supports_caller
     def pydef(context):
         # a plain Python function called with content: runtime.supports_caller manages the caller stack around it
@@ -64,6 +73,10 @@ o${loop.index}\\
 % endfor
 b</%def>
 <%def name="s_bufblock()">a<%block buffered="True">k[${probe(19)}]</%block>b</%def>
+<%def name="deco2(x, level=1)" decorator="dec2">E[${x}${level}${probe(22)}]</%def>
+<%def name="wkw(v)">K[${v}|${caller.body(q=probe(21))}]</%def>
+<%def name="s_deco2()">a${deco2('x')}b</%def>
+<%def name="s_nsargs()">a<%self:wkw v="${q}" args="q">r${q}</%self:wkw>b</%def>
 <%def name="s_foreign()">a<% other.render_context(context) %>b</%def>
 <%def name="s_pydef()">a<%call expr="pydef(context)">c${probe(18)}</%call>b</%def>
 <%def name="who()">${caller.body() if caller else 'none'}</%def>
@@ -96,6 +109,8 @@ SITES = {
     "s_callargs": ("aA[r#13#]b", {13: "aA["}),
     "s_nscall": ("aW[#4#n#14#z#5#]b".replace("z", ""), {4: "aW[", 14: "aW[#4#n", 5: "aW[#4#n#14#"}),
     "s_bufblock": ("ak[#19#]b", {19: "a"}),
+    "s_deco2": ("a<E[X2#22#]>b", {22: "a<E[X2"}),
+    "s_nsargs": ("aK[Q|r#21#]b", {21: "aK[Q|"}),
     "s_foreign": ("aN[#20#]b", {20: "aN["}),
     "s_pydef": ("aY[#16#c#18##17#]b", {16: "aY[", 18: "aY[#16#c", 17: "aY[#16#c#18#"}),
     "s_loopiter": ("a000o0100o1b".replace("000o0100o1", "0" + "00" + "o0" + "1" + "01" + "o1"), {(15, 1): "a0", (15, 2): "a000o01"}),
@@ -159,7 +174,7 @@ def make_data(p, raise_id, raise_occ):
         return decorate
 
     return dict(probe=probe, up=lambda s: s.upper(), tf=lambda s: probe(9) + s.lower(), dec=dec, Boom=Boom, items=lambda marker: (7,),
-                other=foreign_template()), seen
+                other=foreign_template(), q="Q"), seen
 
 
 def step(p, RT, LK, UT, site, with_exception, hosted=False):
